@@ -65,6 +65,18 @@ def place(p, pl):
     return [q[i] + pl["t"][i] for i in range(3)]
 
 
+def unplace(p, pl):
+    """inverse of `place` (the harness's own rotation code)"""
+    return rot([p[i] - pl["t"][i] for i in range(3)], unit(pl["axis"]), -pl["angle"])
+
+
+def local_amount(case: dict) -> List[float]:
+    """the overall extrusion vector of an extruded stack in the frame of the un-placed grid"""
+    if case.get("amount_vec"):
+        return rot(list(case["amount_vec"]), unit(case["placement"]["axis"]), -case["placement"]["angle"])
+    return [0.0, 0.0, float(case["amount"])]
+
+
 def expected_centres(case: dict) -> Dict[Tuple[int, int, int], List[float]]:
     """centre of the sketch face over cell (i, j) on level k, k = 0..nz"""
     nx, ny, nz = case["nx"], case["ny"], case["nz"]
@@ -208,7 +220,8 @@ class C19(core.Check):
         "stack cases: Grid of nx x ny (1..5 each) cells with unequal sides, nz (1..4) tiers, extruded / revolved / "
         "transformed (translation + twist), random rigid placement; observed are all of stack.grid, stack.operations, "
         "get_slice for every axis 0..2 and every index 0..size (size itself: IndexError), and the blocks written after "
-        "Mesh.delete of one addressed operation. round cases: each of 15 sketch classes and 11 + 9 shape constructions in a "
+        "Mesh.delete of one addressed operation, the corner points of every addressed face (un-placed) and the operations chopped by "
+        "Stack.chop. round cases: each of 15 sketch classes and 11 + 9 shape constructions in a "
         "random placement and size. Non-trivial = every case (sizes 1x1x1 included as boundary); distinct = different "
         "sizes/kind/placement. The thorough tier enumerates all 5 x 5 x 4 sizes for each of the three stack kinds."
     )
@@ -219,9 +232,11 @@ class C19(core.Check):
         "python list semantics of the modelled loops are validated by correspondence, not verified",
     ]
     partial_note = (
-        "the theorems on cartesian stacks are for all sizes; core/shell theorems are `decide` on tables of the *probe* "
-        "instances generated from the source at every run (topology is placement independent; other placements are covered by "
-        "correspondence + the geometric oracle only); negative indices / axis outside 0..2 are C20's business"
+        "the theorems on cartesian stacks are for all sizes, incl. where the corner points of every Grid face and every extruded tier "
+        "are (over Q); revolved / twisted tiers are located by the harness only. Faces, grid, core, shell of the round sketch classes are "
+        "computed by the model from the ast-regenerated source text; which points lie on the outer rim is still computed geometrically "
+        "on *probe* instances (`decide` on those tables; other placements: correspondence + geometric oracle); point numbering after "
+        "MappedSketch.merge is not modelled; negative indices / axis outside 0..2 are C20's business"
     )
 
     # ------------------------------------------------------------------ generators
@@ -425,11 +440,32 @@ class C19(core.Check):
                     slices[f"{axis}:{idx}"] = [labels.get(id(op), "?") for op in sl]
                 except Exception as e:
                     slices[f"{axis}:{idx}"] = type(e).__name__
+        # where the faces are: the points of the bottom / top face of every addressed operation, in the frame of the
+        # un-placed grid (tier 0 for every kind of stack, all tiers for extruded stacks)
+        pl = case["placement"]
+        pts = []
+        for kk, shape_grid in enumerate(stack.grid):
+            if kk > 0 and case["stack"] != "extruded":
+                break
+            pts.append([[[[unplace(q, pl) for q in face.point_array.tolist()] for face in (op.bottom_face, op.top_face)]
+                         for op in row] for row in shape_grid])
+        # Stack.chop: which operations receive a chop, on which axis (the chops are taken off again afterwards)
+        chopped: Any = []
+        try:
+            stack.chop(count=3)
+            for op in stack.operations:
+                n_chops = [len(op.chops[a]) for a in range(3)]
+                if n_chops != [0, 0, 0]:
+                    chopped.append([labels.get(id(op), "?"), n_chops])
+        except Exception as e:
+            chopped = type(e).__name__
+        for op in stack.operations:
+            op.chops = {0: [], 1: [], 2: []}
         # delete one addressed operation and look at the written blocks
         deleted: Any = None
         attrs: List[Any] = []
         if case["delete"] is None:
-            return {"dims_ok": dims_ok, "grid": grid, "ops": ops, "slices": slices, "deleted": None}
+            return {"dims_ok": dims_ok, "grid": grid, "ops": ops, "slices": slices, "deleted": None, "pts": pts, "chopped": chopped}
         i, j, k = case["delete"]
         # every addressed operation gets its own cell zone and the counts of its column / row / tier
         # (operations sharing an edge agree): deleting one must leave the others as they are
@@ -517,7 +553,7 @@ class C19(core.Check):
                 deleted = []  # the only operation is deleted: nothing is left to assemble, write() refuses
         return {"dims_ok": dims_ok, "grid": grid, "ops": ops, "slices": slices, "deleted": deleted,
                 "deleted_attrs": attrs if isinstance(deleted, list) and deleted else [], "round_trips": round_trips,
-                "amount_intact": getattr(stack, "cbv_amount_intact", None)}
+                "amount_intact": getattr(stack, "cbv_amount_intact", None), "pts": pts, "chopped": chopped}
 
     def _run_round(self, case: dict) -> Any:
         import numpy as np
@@ -559,10 +595,20 @@ class C19(core.Check):
     def requests(self, case: dict, impl: Any) -> List[str]:
         if case["kind"] == "stack":
             n = f"{case['nx']} {case['ny']} {case['nz']}"
-            reqs = [f"c19.grid {n}", f"c19.ops {n}"]
+            reqs = [f"c19.grid {n}", f"c19.ops {n}", f"c19.chop {n}"]
+            # the points: Grid between p1 and p2, extruded by the whole amount in nz tiers (other kinds: tier 0, no movement)
+            g = " ".join(core.rat(x) for x in (*case["p1"], *case["p2"]))
+            if case["stack"] == "extruded":
+                v = ",".join(core.rat(x) for x in local_amount(case))
+                reqs.append(f"c19.geo {g} {case['nx']} {case['ny']} {case['nz']} {v}")
+            else:
+                reqs.append(f"c19.geo {g} {case['nx']} {case['ny']} 1 0/1,0/1,0/1")
             for key in impl["slices"]:
                 a, i = key.split(":")
                 reqs.append(f"c19.slice {n} {a} {i}")
+            # get_slice interpreted from the regenerated branches of the source, one (axis, index) per case
+            a = (case["nx"] + case["ny"] + case["nz"]) % 3
+            reqs.append(f"c19.slicesrc {n} {a} 0")
             if case["delete"] is not None:
                 i, j, k = case["delete"]
                 reqs.append(f"c19.delete {n} {i} {j} {k}")
@@ -574,7 +620,11 @@ class C19(core.Check):
         name = table_name(case["name"])
         if name is None:
             return []
-        return [f"c19.{case['kind']} {name}"]
+        reqs = [f"c19.{case['kind']} {name}"]
+        if case["kind"] == "sketch":
+            # the index structure computed from the regenerated source text (quad_map, grid expression, merge, core / shell)
+            reqs.append(f"c19.sketchsrc {name}")
+        return reqs
 
     def compare(self, case: dict, impl: Any, model: List[str]) -> Optional[str]:
         def show(x) -> str:
@@ -587,11 +637,24 @@ class C19(core.Check):
                 return f"stack.grid: implementation {show(impl['grid'])[:400]} / model {model[0][:400]}"
             if model[1] != show(impl["ops"]):
                 return f"stack.operations: implementation {show(impl['ops'])[:400]} / model {model[1][:400]}"
-            for key, ans in zip(impl["slices"], model[2:]):
+            want = impl["chopped"]
+            want = show([c[0] for c in want]) if isinstance(want, list) else want
+            if model[2] != want:
+                return f"Stack.chop: chopped operations: implementation {want[:400]} / model {model[2][:400]}"
+            bad = self._compare_points(case, impl, model[3])
+            if bad:
+                return bad
+            for key, ans in zip(impl["slices"], model[4:]):
                 want = impl["slices"][key]
                 want = show(want) if isinstance(want, list) else want
                 if ans != want:
                     return f"get_slice({key}): implementation {want[:400]} / model {ans[:400]}"
+            a = (case["nx"] + case["ny"] + case["nz"]) % 3
+            want = impl["slices"][f"{a}:0"]
+            want = show(want) if isinstance(want, list) else want
+            ans = model[4 + len(impl["slices"])]
+            if ans != want:
+                return f"get_slice({a}:0): implementation {want[:400]} / the source's branches interpreted by the model {ans[:400]}"
             if case["delete"] is None:
                 return None
             want = impl["deleted"]
@@ -618,10 +681,46 @@ class C19(core.Check):
             for k in ("grid", "core", "shell") + (("rim",) if "rim" in fields else ()):
                 if fields[k] != show(impl[k]):
                     return f"{case['name']} {k}: implementation {show(impl[k])} / table {fields[k]}"
+            if len(model) > 1:
+                if model[1] == "bad-op":
+                    return f"{case['name']}: the model cannot compute the index structure from the source tables"
+                src = dict(f.split("=", 1) for f in model[1].split(" "))
+                if src["n"] != str(len(impl["cells"])):
+                    return f"{case['name']} number of faces: implementation {len(impl['cells'])} / model from source {src['n']}"
+                if src["cells"] != "-" and src["cells"] != show(impl["cells"]):
+                    return f"{case['name']} faces: implementation {show(impl['cells'])} / quad_map of the source {src['cells']}"
+                for k in ("grid", "core", "shell"):
+                    if src[k] != show(impl[k]):
+                        return f"{case['name']} {k}: implementation {show(impl[k])} / model from source {src[k]}"
             return None
         for k, f in (("opface", "opface"), ("core", "core"), ("shell", "shell")):
             if fields[f] != show(impl[k]):
                 return f"{case['name']} {k}: implementation {show(impl[k])} / table {fields[f]}"
+        return None
+
+    def _compare_points(self, case: dict, impl: Any, ans: str) -> Optional[str]:
+        """the model's exact points of `grid[k][j][i]` (`bottom|top`, a point is `x_y_z`, points separated by `;`) against the
+        implementation's, both in the frame of the un-placed grid"""
+        if not ans.startswith("["):
+            return f"points: model answers {ans[:80]}"
+        tiers = json.loads(re.sub(r"([^\[\],]+)", r'"\1"', ans))
+        tol = 1e-6
+        extruded = case["stack"] == "extruded"
+        if [[len(r) for r in t] for t in tiers] != [[len(r) for r in t] for t in impl["pts"]]:
+            return f"points: the model's grid and the implementation's have different sizes"
+        for k, rows in enumerate(tiers):
+            for j, row in enumerate(rows):
+                for i, op_s in enumerate(row):
+                    for which, face_s in enumerate(op_s.split("|")):
+                        if which == 1 and not extruded:
+                            continue  # the model moved nothing here: only the bottom faces of tier 0 are compared
+                        got = impl["pts"][k][j][i][which]
+                        for c, (tok, q) in enumerate(zip(face_s.split(";"), got)):
+                            m = [float(core.parse_rat(x)) for x in tok.split("_")]
+                            if dist(m, q) > tol:
+                                return (f"points of grid[{k}][{j}][{i}] ({'bottom' if which == 0 else 'top'} face, corner {c}): "
+                                        f"implementation {[round(x, 9) for x in q]} / model {[round(x, 9) for x in m]} "
+                                        "(frame of the un-placed grid)")
         return None
 
     # ------------------------------------------------------------------ oracle
@@ -668,6 +767,43 @@ class C19(core.Check):
                             "expected": want,
                         }
                     )
+            # Stack.chop: one operation of every tier receives one chop along the stack, nothing else is chopped
+            ch = impl.get("chopped")
+            if not isinstance(ch, list):
+                out.append({"site": f"Stack.chop:{kind}:raises", "what": str(ch)})
+            else:
+                tiers_hit = sorted(int(c[0].split("~")[0].split(".")[2]) for c in ch if "?" not in c[0])
+                if tiers_hit != list(range(nz)) or any(c[1] != [0, 0, 1] for c in ch):
+                    out.append(
+                        {
+                            "site": f"Stack.chop:{kind}:not-one-axis-2-chop-per-tier",
+                            "what": f"Stack.chop(count=3) on a {nx}x{ny}x{nz} stack chopped {ch} (operation, chops per axis)",
+                            "observed": ch,
+                            "expected": f"one operation of each tier 0..{nz - 1} with chops [0, 0, 1]",
+                        }
+                    )
+            # the corner points of the faces of the base grid lie on the lattice between p1 and p2, in the order
+            # (i, j) (i+1, j) (i+1, j+1) (i, j+1); tiers of an extruded stack are equal steps of the whole amount
+            (x0, y0), (x1, y1) = case["p1"], case["p2"]
+            amount = local_amount(case) if kind == "extruded" else None
+            for kk, tier_pts in enumerate(impl.get("pts", [])):
+                for jj, row in enumerate(tier_pts):
+                    for ii, faces in enumerate(row):
+                        for which in ((0, 1) if amount else (0,)):
+                            for c, (da, db) in enumerate(((0, 0), (1, 0), (1, 1), (0, 1))):
+                                want_p = [x0 + (ii + da) * (x1 - x0) / nx, y0 + (jj + db) * (y1 - y0) / ny, 0.0]
+                                if amount:
+                                    want_p = [want_p[d] + (kk + which) * amount[d] / nz for d in range(3)]
+                                if dist(want_p, faces[which][c]) > 1e-6 and not any(o["site"].endswith("corner-not-on-the-lattice") for o in out):
+                                    out.append(
+                                        {
+                                            "site": f"Stack.grid:{kind}:corner-not-on-the-lattice",
+                                            "what": f"corner {c} of the {'top' if which else 'bottom'} face of grid[{kk}][{jj}][{ii}] "
+                                            f"(frame of the un-placed grid)",
+                                            "observed": [round(x, 9) for x in faces[which][c]],
+                                            "expected": [round(x, 9) for x in want_p],
+                                        }
+                                    )
             if case["delete"] is None:
                 return out
             i, j, k = case["delete"]
